@@ -14,6 +14,26 @@ class CallGraph:
             if fi.cls:
                 self.by_name.setdefault(fi.name, []).append(fi)
         self._memo = {}
+        self._fields = {}
+
+    def field_types(self, cq):
+        """{field: classes} from `self.field = ClassName(...)` anywhere in the class (and its repo bases)."""
+        if cq in self._fields:
+            return self._fields[cq]
+        out = {}
+        r = self.repo
+        for k in r.mro(cq):
+            ci = r.classes[k]
+            for m in ci.methods.values():
+                for a in ast.walk(m.node):
+                    if isinstance(a, ast.Assign) and isinstance(a.value, ast.Call):
+                        for t in a.targets:
+                            if isinstance(t, ast.Attribute) and isinstance(t.value, ast.Name) and t.value.id == 'self':
+                                q = r.resolve_dotted(ci.module, dotted(a.value.func) or '')
+                                if q in r.classes:
+                                    out.setdefault(t.attr, set()).add(q)
+        self._fields[cq] = out
+        return out
 
     def class_of(self, fi):
         cq = '%s:%s' % (fi.module.name, fi.cls) if fi.cls else None
@@ -38,9 +58,32 @@ class CallGraph:
             q = r.resolve_dotted(fi.module, nm) if nm else None
             if q in r.funcs:
                 out.setdefault(q, 'decorator')
+        # receivers whose class is visible: locals bound to a constructor call, fields bound to one anywhere in the class
+        local_types = {}
+        for a in ast.walk(fi.node):
+            if isinstance(a, ast.Assign) and isinstance(a.value, ast.Call) and len(a.targets) == 1 and isinstance(a.targets[0], ast.Name):
+                q = r.resolve_dotted(fi.module, dotted(a.value.func) or '')
+                if q in r.classes:
+                    local_types.setdefault(a.targets[0].id, set()).add(q)
+        field_types = self.field_types(cq) if cq else {}
         for c in ast.walk(fi.node):
             if not isinstance(c, ast.Call):
                 continue
+            if isinstance(c.func, ast.Attribute):
+                recv = c.func.value
+                ks = set()
+                if isinstance(recv, ast.Name) and recv.id in local_types:
+                    ks = local_types[recv.id]
+                elif isinstance(recv, ast.Attribute) and isinstance(recv.value, ast.Name) and recv.value.id == 'self' and recv.attr in field_types:
+                    ks = field_types[recv.attr]
+                hit = False
+                for k in ks:
+                    m = r.find_method(k, c.func.attr)
+                    if m is not None:
+                        out.setdefault(m.qual, 'method of %s' % k.split(':')[-1])
+                        hit = True
+                if hit:
+                    continue
             nm = dotted(c.func)
             if nm and not nm.startswith(('self.', 'cls.')):
                 q = r.resolve_dotted(fi.module, nm)
